@@ -287,6 +287,15 @@ def quad_ogrid(rng, size, jitter, frame, origin):
     return [_l(p) for p in pts], cells
 
 
+def quad_lshape(rng, size, jitter, frame, origin):
+    """an L: the 4x4 raster without its upper right 2x2 quarter (one re-entrant corner on the boundary)"""
+    pts, cells, _, _ = quad_lattice(rng, (4, 4), size, jitter, frame, origin)
+    keep = [c for k, c in enumerate(cells) if not (k % 4 >= 2 and k // 4 >= 2)]
+    used = sorted({n for c in keep for n in c})
+    ren = {n: i for i, n in enumerate(used)}
+    return [pts[n] for n in used], [[ren[n] for n in c] for c in keep]
+
+
 def quad_fan(rng, size, jitter, frame, origin):
     """unstructured: a 5-valent interior node surrounded by five quads"""
     fr, o = geom.arr(frame), geom.arr(origin)
@@ -452,9 +461,10 @@ def gen(rng, force=None):
             topo += "r"
         inplane, normal = None, None
     else:
-        shape = rng.choice(["3x3", "2x2", "2x3", "ogrid", "fan"]) if not want_sym else rng.choice(["2x2", "2x3"])
-        if shape in ("ogrid", "fan"):
-            pts, cells = (quad_ogrid if shape == "ogrid" else quad_fan)(rng, size, min(jitter, 0.15), frame, origin)
+        shape = rng.choice(["3x3", "2x2", "2x3", "ogrid", "fan", "lshape"]) if not want_sym else rng.choice(["2x2", "2x3"])
+        shape = force.get("shape") or shape
+        if shape in ("ogrid", "fan", "lshape"):
+            pts, cells = {"ogrid": quad_ogrid, "fan": quad_fan, "lshape": quad_lshape}[shape](rng, size, min(jitter, 0.15), frame, origin)
             topo = shape
         else:
             dims = tuple(int(c) for c in shape.split("x"))
